@@ -348,7 +348,7 @@ Definition step_conn_first (cfg : config) (f : frame) (h : hb) (s : state) : sta
       let s1 := set_peer_sent (peer_sent s ++ [f]) s in
       if max_buffered <? f_len f then init_fail s1                              (* 1043-1048 *)
       else
-        let s2 := match typed_handler cfg (f_typ f) with                        (* 1055-1057: typed handlers only *)
+        let s2 := match first_handler cfg (f_typ f) with                        (* typed handler, else the default handler *)
                   | Some k =>
                       let s' := set_handled (handled s1 ++ [mkHrec seq f k h false]) s1 in
                       match k with HAck => ack_enqueue (f_id f) s' | _ => s' end
